@@ -33,6 +33,9 @@ func src(n ast.Node) string {
 	return strings.Join(strings.Fields(b.String()), " ")
 }
 
+var timeUnits = map[string]string{"time.Nanosecond": "1", "time.Microsecond": "1000", "time.Millisecond": "1000000",
+	"time.Second": "1000000000", "time.Minute": "60000000000", "time.Hour": "3600000000000"}
+
 var fileCache = map[string]*ast.File{}
 
 func parseFile(path string) *ast.File {
@@ -82,8 +85,10 @@ type Spec struct {
 	InputCalls []string          // call-name prefixes whose result variable becomes an input (error check after it dropped)
 	Ignore     []string          // call-name prefixes of statements to drop (logging, metrics, locks)
 	Vars       map[string]string // Go lvalue source (e.g. "b.notBefore") -> Lean variable name
+	IgnoreLHS  []string          // assignments to these targets (Go source of the lvalue) are dropped (e.g. `intervals = append(...)`)
 	Ret        string            // "errlast" (Option tuple), "tuple", "state" (return value followed by StateVars)
 	StateVars  []string          // Lean variable names appended to every return in "state" mode
+	Calls      map[string]string // Go function source (e.g. "min") -> Lean function applied to the translated arguments
 }
 
 type tr struct {
@@ -143,6 +148,10 @@ func (t *tr) expr(e ast.Expr) string {
 		case token.STRING:
 			return x.Value
 		}
+	case *ast.SelectorExpr:
+		if u, ok := timeUnits[s]; ok {
+			return "(" + u + " : Int)"
+		}
 	case *ast.ParenExpr:
 		return "(" + t.expr(x.X) + ")"
 	case *ast.UnaryExpr:
@@ -168,6 +177,9 @@ func (t *tr) expr(e ast.Expr) string {
 			return "(" + o + ".div " + a + " " + b + ")"
 		case token.SHL:
 			return "(" + o + ".shl " + a + " " + b + ")"
+		case token.AND:
+			// bitwise and of two non-negative bit masks
+			return "(I64.land " + a + " " + b + ")"
 		case token.LSS:
 			return "(decide (" + a + " < " + b + "))"
 		case token.LEQ:
@@ -185,7 +197,41 @@ func (t *tr) expr(e ast.Expr) string {
 		case token.LOR:
 			return "(" + a + " || " + b + ")"
 		}
+	case *ast.CompositeLit:
+		// unkeyed struct literal of scalar fields, e.g. fetchRange{start, batchEnd - 1} -> Lean tuple
+		if len(x.Elts) >= 2 {
+			var parts []string
+			for _, el := range x.Elts {
+				if _, keyed := el.(*ast.KeyValueExpr); keyed {
+					failf(e, "keyed composite literal unsupported: %s", s)
+				}
+				parts = append(parts, t.expr(el))
+			}
+			return "(" + strings.Join(parts, ", ") + ")"
+		}
 	case *ast.CallExpr:
+		switch src(x.Fun) {
+		case "time.Now":
+			if len(x.Args) == 0 {
+				return "now_"
+			}
+		case "time.Until":
+			if len(x.Args) == 1 {
+				return "(I64.sub " + t.expr(x.Args[0]) + " now_)"
+			}
+		case "time.Since":
+			if len(x.Args) == 1 {
+				return "(I64.sub now_ " + t.expr(x.Args[0]) + ")"
+			}
+		}
+		// calls of other regenerated kernels (Spec.Calls)
+		if ln, ok := t.sp.Calls[src(x.Fun)]; ok {
+			parts := []string{ln}
+			for _, a := range x.Args {
+				parts = append(parts, t.expr(a))
+			}
+			return "(" + strings.Join(parts, " ") + ")"
+		}
 		// conversions
 		switch src(x.Fun) {
 		case "int64", "int", "time.Duration":
@@ -257,7 +303,15 @@ func (t *tr) assigned(b []ast.Stmt, out map[string]bool) {
 		case *ast.AssignStmt:
 			if x.Tok != token.DEFINE {
 				for _, l := range x.Lhs {
-					out[t.lvalue(l)] = true
+					skip := false
+					for _, ig := range t.sp.IgnoreLHS {
+						if src(l) == ig {
+							skip = true
+						}
+					}
+					if !skip {
+						out[t.lvalue(l)] = true
+					}
 				}
 			}
 		case *ast.IncDecStmt:
@@ -389,6 +443,13 @@ func (t *tr) block(b []ast.Stmt, tail string, ind string) string {
 				}
 			}
 			return t.block(rest, tail, ind)
+		}
+		if len(x.Lhs) == 1 {
+			for _, ig := range t.sp.IgnoreLHS {
+				if src(x.Lhs[0]) == ig {
+					return t.block(rest, tail, ind)
+				}
+			}
 		}
 		if len(x.Lhs) != len(x.Rhs) {
 			failf(s, "unsupported multi-value assignment %s", src(s))
